@@ -80,7 +80,21 @@ def seg_lines(seg, d):
     return lines, rows
 
 
-VARIANT_NAMES = {1: "extra-blanks-between-code-words", 2: "extra-blanks-between-code-words", 3: "across-the-first-hour", 4: "lang-option", 5: "crlf-line-ends", 6: "blank-only-separator-lines"}
+VARIANT_NAMES = {1: "extra-blanks-between-code-words", 2: "extra-blanks-between-code-words", 3: "across-the-first-hour", 4: "lang-option", 5: "crlf-line-ends", 6: "blank-only-separator-lines",
+                 7: "line-cut-between-the-copies-of-a-doubled-code"}
+
+
+def _cut_point(words):
+    """index k such that words[k-1] == words[k] is a doubled control code: the last doubled special / extended character
+    of the line if there is one, else the last doubled control code; None if nothing is doubled"""
+    best = None
+    for k in range(1, len(words)):
+        if words[k] == words[k - 1] and (int(words[k][:2], 16) & 0x7F) in range(0x10, 0x20):
+            b1, b2 = int(words[k][:2], 16) & 0x7F, int(words[k][2:], 16) & 0x7F
+            is_char = (b1 & 0x77) in (0x11, 0x12, 0x13) and 0x20 <= b2 <= 0x3F and not (b1 & 0x77 == 0x11 and b2 < 0x30)
+            if is_char or best is None or not best[1]:
+                best = (k, is_char)
+    return best[0] if best else None
 
 
 def build(segs, d, sep, gap, spacing=0):
@@ -95,8 +109,13 @@ def build(segs, d, sep, gap, spacing=0):
         for w in lines:
             # spacing 1: two blanks in every third gap between code words; 2: a trailing blank (blanks are not code words)
             body = "".join(x + ("  " if k % 3 == 1 else " ") for k, x in enumerate(w)).rstrip(" ") if spacing == 1 else " ".join(w) + (" " if spacing == 2 else "")
-            out.append(tc(t, sep) + "\t" + body)
-            out.append("")
+            k = _cut_point(w) if spacing == 7 else None
+            if k is not None:
+                # the second copy of a doubled code opens a new line, one frame after the first copy
+                out += [tc(t, sep) + "\t" + " ".join(w[:k]), "", tc(t + k, sep) + "\t" + " ".join(w[k:]), ""]
+            else:
+                out.append(tc(t, sep) + "\t" + body)
+                out.append("")
             t += len(w) + gap
             nl += 1
     if spacing == 6:
@@ -267,6 +286,8 @@ def run_shard(d):
         if spacing == 0 and dd == 1 and gap == GAPS[0] and sep == ":":
             for variant in (1, 2, 3, 4, 5, 6):
                 run(segs, dd, sep, gap, chain, klass, variant)
+        if spacing == 0 and dd == 2 and gap == GAPS[0] and sep == ":":
+            run(segs, dd, sep, gap, chain, klass, 7)
 
     if d["k"] == "reuse":
         shared.run(acc, reuse_items(), reuse_eval, sample=lambda it: {"reuse_run_step": list(it)})
